@@ -7,7 +7,9 @@ open C10
 * eval:  `((kind n child ...) ...)` (a forest) →
   `<writer outcome> <coreOk> <rectOk> <mixOk> <nowaitOk> <loopsNonEmpty> <kind of first core/rect/mix breaker or ->`
 * apply: `(A <forest> (region kind n (path) lo len))`, `(A <forest> (loopDir kind n (path) idx))`,
-  `(A <forest> (leaf kind n (path) idx))` → the resulting forest in the same syntax, or `none`. -/
+  `(A <forest> (leaf kind n (path) idx))` → the resulting forest in the same syntax, or `none`.
+* module eval: `(C <forest> <forest> …)` → the same seven fields for the module (`writerC`, …).
+* module apply: `(AC (C <forest> …) <routine index> <op>)` → `(C <forest> …)` or `none`. -/
 def kindOf (name : String) (n : Nat) : Option Kind :=
   match name with
   | "stmt" => some .stmt | "astmt" => some .astmt | "block" => some .block | "loop" => some (.loop n)
@@ -82,6 +84,30 @@ def opOf : Sexp → Option Op
     pure (.leaf k path.natList (← idx.nat?))
   | _ => none
 
+partial def containerOf : List Sexp → Option Container
+  | [] => some []
+  | .list xs :: rest => do
+    let r ← forestOf xs
+    let tl ← containerOf rest
+    pure (r :: tl)
+  | _ => none
+
+def firstBadC : Container → Option String
+  | [] => none
+  | r :: rs => match firstBad (envOf r) .first [] r with
+    | some x => some x
+    | none => firstBadC rs
+
+/-- `(C <forest> <forest> …)`: a module, one forest per routine; same seven fields as `evalForest`,
+computed by `writerC` / `coreOkC` / … (every routine with its own `envOf`). -/
+def evalContainer (c : Container) : String :=
+  let o := match writerC c with
+    | .accept => "accept" | .genError => "genError" | .crash => "crash"
+  s!"{o} {b (coreOkC c)} {b (rectOkC c)} {b (mixOkC c)} {b (nowaitOkC c)} {b (loopsNonEmptyC c)} {(firstBadC c).getD "-"}"
+
+def showContainer (c : Container) : String :=
+  "(C" ++ String.join (c.map fun r => " (" ++ " ".intercalate (showForest r) ++ ")") ++ ")"
+
 def handle (s : Sexp) : String :=
   match s with
   | .list [.atom "A", .list xs, op] =>
@@ -91,6 +117,17 @@ def handle (s : Sexp) : String :=
       | some t' => "(" ++ " ".intercalate (showForest t') ++ ")"
       | none => "none"
     | _, _ => "bad-apply"
+  | .list [.atom "AC", .list (.atom "C" :: rs), ri, op] =>
+    match containerOf rs, ri.nat?, opOf op with
+    | some c, some i, some o =>
+      match applyCOp ⟨i, o⟩ c with
+      | some c' => showContainer c'
+      | none => "none"
+    | _, _, _ => "bad-apply"
+  | .list (.atom "C" :: rs) =>
+    match containerOf rs with
+    | none => "bad-container"
+    | some c => evalContainer c
   | .list xs =>
     match forestOf xs with
     | none => "bad-forest"
